@@ -204,6 +204,15 @@ func calleeName(c *ssa.CallCommon) string {
 		return v.Name()
 	case *ssa.MakeClosure:
 		return v.Fn.Name()
+	case *ssa.UnOp:
+		// a function stored in a struct field is named by the field
+		if fa, ok := v.X.(*ssa.FieldAddr); ok {
+			if pt, ok := fa.X.Type().Underlying().(*types.Pointer); ok {
+				if st, ok := pt.Elem().Underlying().(*types.Struct); ok {
+					return st.Field(fa.Field).Name()
+				}
+			}
+		}
 	}
 	return "dynamic"
 }
